@@ -733,22 +733,35 @@ def check_unit(ast, unit, registry, wd, variant=None):
         groups = [[h] for h in heavy]
         for i in range(0, len(light), 60):
             groups.append(light[i:i + 60])
+        gave_up = threading.Event()
         def one(g):
+            if gave_up.is_set():
+                return (None, '', 'skipped: an earlier obligation of this unit stayed undecided', 0.0)
             ex = []
             for pn in g:
                 ex += ['--property', pn]
-            return run_cbmc(unit, gb, ex, unit.timeout, unit.mem_gb)
+            out = run_cbmc(unit, gb, ex, unit.timeout, unit.mem_gb)
+            if parse_json_ui(out[1])[0] is None:
+                gave_up.set()        # timeout / out of memory: do not spend the same time on every remaining obligation of the unit
+            return out
         with ThreadPoolExecutor(max_workers=int(os.environ.get('VERIF_JOBS_INNER', '8'))) as ex:
             outs = list(ex.map(one, groups))
         allres = []
+        open_groups = []
         for g, (rc, so, se, dt) in zip(groups, outs):
             r.solver_s += dt
             res, status, err = parse_json_ui(so)
             if res is None:
-                r.reason = 'undecided obligations %s: %s' % (g[:3], (se or err or 'no result')[:300])
-                r.wall = time.time() - t0
-                return r
+                open_groups.append((g, (se or err or 'no result')[:300]))
+                continue
             allres.extend([x for x in res if x['property'] in g])
+        if open_groups and not any(x['status'] != 'SUCCESS' and not x.get('description', '').startswith('CANARY') for x in allres):
+            g, why = open_groups[0]
+            r.reason = 'undecided obligations %s (+%d groups): %s' % (g[:3], len(open_groups) - 1, why)
+            r.wall = time.time() - t0
+            return r
+        # (a refuted obligation is a definite answer even if other obligations of the unit stayed undecided)
+        r.undecided_groups = [g for g, _ in open_groups]
         res = allres
     else:
         rc, so, se, dt = run_cbmc(unit, gb, [], unit.timeout, unit.mem_gb)
